@@ -258,25 +258,52 @@ pub fn gen_big_train_world(rng: &mut Rng, plan: &mut Plan) {
     plan.set_param("big_world", 1);
 }
 
+/// Wall-clock budget of one training. A training of these worlds takes 5-300 ms; in rare degenerate
+/// worlds (about 1 in 20 000) the backtracking line search of argmin, used by rucrf, never
+/// terminates. Such a world is outside the properties' quantifier ("for which training succeeds"):
+/// the run is skipped and counted, never a verdict. The budget only separates "milliseconds" from
+/// "forever" (100x margin), like the watchdog; the abandoned training thread is leaked.
+const TRAIN_BUDGET_SECS: u64 = 30;
+
 /// Trains the plan's model. Ok(None): configuration rejected or training did not succeed (outside
 /// the properties' quantifier), counted and skipped.
 pub fn train(plan: &Plan, ctx: &mut Ctx) -> Result<Option<Model>, Violation> {
-    let r = catch(|| -> Result<Model, String> {
-        let config = TrainerConfig::from_readers(
-            plan.file("lex.csv"),
-            plan.file("char.def"),
-            plan.file("unk.def"),
-            plan.file("feature.def"),
-            plan.file("rewrite.def"),
-        )
-        .map_err(|e| format!("config: {e}"))?;
-        let corpus = Corpus::from_reader(plan.file("corpus.txt")).map_err(|e| format!("corpus: {e}"))?;
-        let trainer = Trainer::new(config)
-            .map_err(|e| format!("trainer: {e}"))?
-            .max_iter(plan.param("max_iter").clamp(1, 100) as u64)
-            .num_threads(1);
-        trainer.train(corpus).map_err(|e| format!("train: {e}"))
+    let files: Vec<Vec<u8>> = ["lex.csv", "char.def", "unk.def", "feature.def", "rewrite.def", "corpus.txt"]
+        .iter()
+        .map(|n| plan.file(n).to_vec())
+        .collect();
+    let max_iter = plan.param("max_iter").clamp(1, 100) as u64;
+    let (tx, rx) = std::sync::mpsc::channel();
+    let spawned = std::thread::Builder::new().name("train".into()).spawn(move || {
+        let r = catch(|| -> Result<Model, String> {
+            let config = TrainerConfig::from_readers(
+                files[0].as_slice(),
+                files[1].as_slice(),
+                files[2].as_slice(),
+                files[3].as_slice(),
+                files[4].as_slice(),
+            )
+            .map_err(|e| format!("config: {e}"))?;
+            let corpus = Corpus::from_reader(files[5].as_slice()).map_err(|e| format!("corpus: {e}"))?;
+            let trainer = Trainer::new(config)
+                .map_err(|e| format!("trainer: {e}"))?
+                .max_iter(max_iter)
+                .num_threads(1);
+            trainer.train(corpus).map_err(|e| format!("train: {e}"))
+        });
+        let _ = tx.send(r);
     });
+    if spawned.is_err() {
+        return Err(Violation::new("harness.spawn", "cannot spawn the training thread"));
+    }
+    let r = match rx.recv_timeout(std::time::Duration::from_secs(TRAIN_BUDGET_SECS)) {
+        Ok(r) => r,
+        Err(_) => {
+            ctx.count("train.nonterminating_in_dependency");
+            ctx.event("train", "skipped: the optimiser (argmin line search inside rucrf) did not terminate");
+            return Ok(None);
+        }
+    };
     match r {
         Ok(Ok(m)) => Ok(Some(m)),
         Ok(Err(e)) => {
